@@ -400,7 +400,7 @@ class Interp(StmtMixin):
             # bound method
             yield st, Val(None, "bound", (base, attr))
             return
-        if base.ty in ("str", "pylist", "slist", "sexp", "iter", "table") or (isinstance(base.ty, tuple) and base.ty[0] == "seq"):
+        if base.ty in ("str", "pylist", "slist", "sexp", "iter", "table", "file") or (isinstance(base.ty, tuple) and base.ty[0] == "seq"):
             yield st, Val(None, "bound", (base, attr))
             return
         if base.ty == "module":
@@ -697,6 +697,11 @@ class Interp(StmtMixin):
                 st = st.assume(SExp.is_Atom(key.t))
                 key = Val(SExp.s(key.t), "str")
             present = z3.Contains(ks.t, z3.Unit(key.t))
+            if self.spec_mode:
+                vty = mp.ty[2]
+                vty = ("ref", self.c.get("dict_values", {}).get(cls, "opaque")) if vty == "int" else vty
+                yield st, Val(z3.Select(mp.t, key.t), vty)
+                return
             s_no = st.assume(z3.Not(present))
             if self.feasible(s_no):
                 yield s_no, Raise("KeyError", line)
@@ -710,6 +715,9 @@ class Interp(StmtMixin):
             s = self.seq_of(st, base)
             n = z3.Length(s.t)
             i = idx.t
+            if self.spec_mode:
+                yield st, Val(s.t[i], s.ty[1])       # specifications index totally (guarded by their own ranges)
+                return
             inb = z3.And(i >= -n, i < n)
             s_bad = st.assume(z3.Not(inb))
             if self.feasible(s_bad):
